@@ -83,7 +83,8 @@ def main(c):
                                      conformance=("EmuImpl_Trace.tla", "EmuImpl_Trace.cfg") if fam == "state" else None,
                                      shards=SHARDS[c.tier][fam])
         # confirm per family (each family has its own trace specification)
-        c.confirm(drv, "c05", specs, spec, cfg, got, sig_of)
+        # stalls on a real PTY depend on how the PTY goroutine's select falls: up to 5 rejected scenarios are re-run
+        c.confirm(drv, "c05", specs, spec, cfg, got, sig_of, tries=5)
     return c.finish(
         rule="state family: scenario = initial size x steps (one grammar-generated control sequence / text run with boundary and huge "
              "parameters, or a chunk of raw fuzzed bytes, or a resize), plus ALL sequences of length 1 (and 2 on the tier's sizes) over "
